@@ -56,6 +56,18 @@ Definition index_model (lens : list (nat * nat)) (slots : list (list nat)) : val
           VL (map (fun e => match e with Some (_, v) => ofnat v | None => VBot end) table)]
   end.
 
+(* one level of the PARALLEL construction executed by the small-step semantics under a given schedule:
+   ( size slots ( ( thread stale ) .. ) ( thread .. ) )  ->  ( set bits of a ) ( positions of the redo keys ) all-done *)
+Definition vevent (v : val) : option (nat * bool) :=
+  match v with VL [VN i; VN st] => Some (N.to_nat i, negb (st =? 0)) | _ => None end.
+Definition sched_model (size : nat) (slots : list nat) (s1 : list (nat * bool)) (s2 : list nat) : val :=
+  let n := length slots in
+  let st1 := run1 slots s1 (init1 n size) in
+  let st2 := run2 slots (sc st1) s2 (init2 n (sa st1)) in
+  VL [VL (map ofnat (setbits_from 0 (sa2 st2)));
+      VL (map ofN (collect (map N.of_nat (seq 0 n)) (pcs2 st2)));
+      ofbool (done1b slots st1 && forallb (fun i => pc2_done (nth i (pcs2 st2) Qnone)) (seq 0 n))].
+
 Definition d_bbhash (op : string) (v : val) : option val :=
   if String.eqb op "chk.same_graph" || String.eqb op "chk.same_api" || String.eqb op "chk.oracle" then
     match v with
@@ -84,6 +96,15 @@ Definition d_bbhash (op : string) (v : val) : option val :=
             let rights := ends_of (N.to_nat k) seqs' DRight in
             Some (VL (map (fun q => match q with (id, d, e) =>
                         VL (map (fun x => oflink (Some x)) (edges_ends st' lefts rights id d e)) end) qs'))
+        | _, _, _ => None
+        end
+    | _ => None
+    end
+  else if String.eqb op "bb.sched" then
+    match v with
+    | VL [VN size; slots; VL s1; s2] =>
+        match vnats slots, omap vevent s1, vnats s2 with
+        | Some slots', Some s1', Some s2' => Some (sched_model (N.to_nat size) slots' s1' s2')
         | _, _, _ => None
         end
     | _ => None
